@@ -587,8 +587,20 @@ class Hang(Exception):
     pass
 
 
-def _alarm(*a):
-    raise Hang()
+class CountingStates(dict):
+    """ParseConf.states replacement: counts row look-ups (two per loop iteration of feed_token) and raises Hang
+    when one feed_token call exceeds LIMIT - a deterministic stand-in for 'does not return'"""
+    LIMIT = 5000
+
+    def __init__(self, d):
+        dict.__init__(self, d)
+        self.n = 0
+
+    def __getitem__(self, k):
+        self.n += 1
+        if self.n > self.LIMIT:
+            raise Hang()
+        return dict.__getitem__(self, k)
 
 
 def is_cyclic(rules):
@@ -604,7 +616,7 @@ def is_cyclic(rules):
     return has_cycle(list(R), R)
 
 
-def drive(o, tab, start, w, guard=False):
+def drive(o, tab, start, w, guard=True):
     """feed w (terminal numbers) then $END through parse_interactive on the real ParserState; returns
     (steps, tree) with steps = [(t, code, stack_topfirst, keys)]"""
     from copy import copy
@@ -616,6 +628,8 @@ def drive(o, tab, start, w, guard=False):
     ps = ip.parser_state
     conf = copy(ps.parse_conf)
     conf.callbacks = {r: (lambda s, i=i: ('N', i, list(s))) for r, i in o.rule_idx.items()}
+    counting = CountingStates(conf.states)
+    conf.states = counting
     ps.parse_conf = conf
     steps = []
     tree = None
@@ -626,17 +640,9 @@ def drive(o, tab, start, w, guard=False):
         return ('L', o.tnum[v.type])
     for t in list(w) + [0]:
         keys = None
-        if guard:
-            import signal
-            old = signal.signal(signal.SIGALRM, _alarm)
-            signal.setitimer(signal.ITIMER_REAL, 1.0)
+        counting.n = 0
         try:
-            try:
-                r = ip.feed_token(Token(tname[t], ''))
-            finally:
-                if guard:
-                    signal.setitimer(signal.ITIMER_REAL, 0)
-                    signal.signal(signal.SIGALRM, old)
+            r = ip.feed_token(Token(tname[t], ''))
             if t == 0:
                 code = 'accept'
                 tree = conv(r)
@@ -778,6 +784,37 @@ def membership_oracle(o, d, start, steps, w, complete_ok):
     return None
 
 
+def T_(*names):
+    return ''.join('%s: "%s"\n' % (t, t.lower()) for t in names)
+
+
+# fixed corpus, run through the same pipeline as the random grammars (model vs code on every observation point)
+FIXED = [
+    # the F13 witness (LALR(1); a kernel item of origin a in a state that also has an a-transition)
+    ('start: a E | c | Y e2 D\na: Y b\nc: Y a D\nb: B\ne2: B\n' + T_('B', 'D', 'E', 'Y'), ['start'], ['B', 'D', 'E', 'Y']),
+    # expression grammar (LALR(1), left recursion, shared look-aheads)
+    ('start: start A b | b\nb: b B c | c\nc: C start D | D\n' + T_('A', 'B', 'C', 'D'), ['start'], ['A', 'B', 'C', 'D']),
+    # dangling else: shift/reduce resolved as shift
+    ('start: A start | A start B start | C\n' + T_('A', 'B', 'C'), ['start'], ['A', 'B', 'C']),
+    # LR(1) but not LALR(1): merging cores creates a reduce/reduce collision -> GrammarError
+    ('start: A a C | A b D | B a D | B b C\na: A\nb: A\n' + T_('A', 'B', 'C', 'D'), ['start'], ['A', 'B', 'C', 'D']),
+    # the same with a priority: builds, and loses the sentences of the other rule
+    ('start: A a C | A b D | B a D | B b C\na.2: A\nb: A\n' + T_('A', 'B', 'C', 'D'), ['start'], ['A', 'B', 'C', 'D']),
+    # LR(2): priority-resolved collision rejects the sentence "d a c"
+    ('start: a A B | b A C\na.2: D\nb: D\n' + T_('A', 'B', 'C', 'D'), ['start'], ['A', 'B', 'C', 'D']),
+    # cyclic unit rule selected by priority: feed_token does not terminate on "d c" $END
+    ('start: D a | D\na.2: a | C\n' + T_('C', 'D'), ['start'], ['C', 'D']),
+    # nullable suffixes: includes through several nullable symbols
+    ('start: A a b c | B a\na: A | \nb: B | \nc: C | \n' + T_('A', 'B', 'C'), ['start'], ['A', 'B', 'C']),
+    # reads through nullable non-terminals after a transition
+    ('start: a b c D\na: A\nb: | B\nc: | C\n' + T_('A', 'B', 'C', 'D'), ['start'], ['A', 'B', 'C', 'D']),
+    # non-trivial reads-cycle (digraph set aliasing shows here; collision is legitimate)
+    ('start: b a | C b | start start | \na:  | b D b | b D\nb:  | start\n' + T_('C', 'D'), ['start'], ['C', 'D']),
+    # two start symbols sharing states
+    ('start: a A | B\na: B a | C\n' + T_('A', 'B', 'C'), ['start', 'a'], ['A', 'B', 'C']),
+]
+
+
 F13_GRAMMAR = ('start: a E | c | Y e2 D\na: Y b\nc: Y a D\nb: B\ne2: B\nE: "e"\nY: "y"\nD: "d"\nB: "b"\n',
                ['ybe', 'yybd', 'ybd'], ['yyybd', 'ybb', 'yd', ''])
 
@@ -799,9 +836,13 @@ def correspond(ctx):
     n_gram = int(os.environ.get('C02_N', 0)) or ctx.scale(260, 2600) * (3 if ctx.widen else 1)
     acases, ameta = [], []
     dcases, dmeta = [], []
-    for gi in range(n_gram):
-        g = gen_grammar(rng)
-        text = render(g)
+    for gi in range(-len(FIXED), n_gram):
+        if gi < 0:
+            text, starts_, ts_ = FIXED[gi + len(FIXED)]
+            g = dict(starts=starts_, ts=ts_, profile='fixed-corpus')
+        else:
+            g = gen_grammar(rng)
+            text = render(g)
         try:
             o = observe(text, g['starts'], extra_terms=g['ts'])
         except Exception as e:   # noqa
@@ -831,7 +872,7 @@ def correspond(ctx):
         ctx.count(stream, key=text, nontrivial=(nstates >= 4 and n_red >= 1 and proper),
                   profile=g['profile'], states=min(nstates, 40) // 5 * 5, grammar_error=d['error'],
                   shift_reduce=min(sr, 3), reduce_reduce=min(rr, 3), reads_cycle=cyc, starts=len(g['starts']))
-        if gi < 2:
+        if 0 <= gi < 2:
             ctx.sample({'grammar': text, 'starts': g['starts'], 'states': nstates, 'grammar_error': d['error'],
                         'shift_reduce_conflicts': sr, 'reduce_reduce_sets': rr})
         # --- the property's oracles (search) ---
